@@ -1,27 +1,40 @@
 --------------------------- MODULE TraceRoundTrip ---------------------------
 (* Trace validation of client.Runtime -> httptest.Server(middleware.Serve)   *)
 (* against C04.                                                              *)
-(* case  : API description, the call, the response the handler is to return  *)
-(* event : exchange {op, supplied:[{name, loc, kind, vs}], err, handled_op,  *)
-(*         received:[{name, vs}], handler:{code, hdrs, body}, seen:{code,    *)
-(*         hdrs, body}, wire_path, wire_query, setup}                        *)
+(* case  : API description and a SESSION: the calls made one after the other  *)
+(*         through one client.Runtime to one server (a single call on a      *)
+(*         long-lived shared server, or several on a server built for the    *)
+(*         case), each with the response the handler is to return            *)
+(* event : exchange {step, op, media, supplied:[{name, loc, kind, vs, off}], *)
+(*         err, handled_op, received:[{name, vs}], handler:{code, hdrs,      *)
+(*         body}, seen:{code, hdrs, body}, wire_path, wire_query, setup}     *)
+(* The model state of a session is what a correct client and server may      *)
+(* remember between exchanges: the configuration (here: the declared steps)  *)
+(* and nothing else - every exchange, whatever came before it, must satisfy  *)
+(* C04 on its own.                                                           *)
 (* The scope of the guarantee (non-empty, non-dot path values; transportable *)
-(* header values; final non-redirect statuses) is decided by the spec.       *)
+(* header values; final non-redirect statuses; non-empty text bodies) is     *)
+(* decided by the spec.                                                      *)
 EXTENDS RoundTrip, Json, IOUtils
 
 VARIABLES l, st, skipping, fails, cs
 
-XInit(e) == [op |-> e.op]
+XInit(e) == [ops |-> [i \in 1..Len(e.steps) |-> e.steps[i].op]]
 
-Call(e) == [op |-> e.op, params |-> e.supplied]
+Call(e) == [op |-> e.op, media |-> e.media, params |-> e.supplied]
 Obs(e)  == [err |-> e.err, handled_op |-> e.handled_op, received |-> e.received, handler |-> e.handler, seen |-> e.seen]
 
 XAllowed(s, e) ==
-  CASE e.ev = "exchange" -> e.setup /\ ExchangeOK(Call(e), Obs(e))
+  CASE e.ev = "exchange" -> /\ e.setup
+                            /\ e.step \in 1..Len(s.ops) /\ s.ops[e.step] = e.op      \* the exchange is the declared step
+                            /\ ExchangeOK(Call(e), Obs(e))
     [] OTHER -> FALSE
 
 XWhy(s, e) ==
-  CASE e.ev = "exchange" -> IF ~e.setup THEN "api-not-built" ELSE WhyExchange(Call(e), Obs(e))
+  CASE e.ev = "exchange" -> IF ~e.setup THEN "api-not-built"
+                            ELSE IF ~(e.step \in 1..Len(s.ops) /\ s.ops[e.step] = e.op) THEN "not-the-declared-step"
+                            ELSE IF e.step > 1 THEN WhyExchange(Call(e), Obs(e)) \o "/after-history"
+                            ELSE WhyExchange(Call(e), Obs(e))
     [] OTHER -> "unknown-event"
 
 XStep(s, e) == s
